@@ -101,11 +101,16 @@ def compare(stage, node, ref, vers, where):
     for got in (node.hwif(as_private=False), node.hwif()):
         if got != exp_pub:
             bad("hwif-public", got, exp_pub)
+    # as_text is the other documented name of the same serialisation (what repr() and ku print)
+    if node.as_text() != exp_pub or node.as_text(as_private=False) != exp_pub:
+        bad("as_text-public", node.as_text(), exp_pub)
     if ref.k is not None:
         exp_prv = R.text(ref, True, vers[0])
         got = node.hwif(as_private=True)
         if got != exp_prv:
             bad("hwif-private", got, exp_prv)
+        if node.as_text(as_private=True) != exp_prv:
+            bad("as_text-private", node.as_text(as_private=True), exp_prv)
 
 
 def path_string(path):
